@@ -43,3 +43,19 @@ Check C16_completed_stays_completed : forall cs s r,
   Forall (fun x => x = RW (Done 0) \/ x = RF (Done tt)) (fst (run_calls s cs)) /\
   snk_bytes (stream_sink (snd (run_calls s cs))) = snk_bytes (stream_sink s).
 Print Assumptions C16_completed_stays_completed.
+
+From LZ Require Import Proofs.NoPanicStream.
+
+(* no sequence of write / flush calls followed by finish panics, for arbitrary input bytes, options and sink behaviour (fuel_only: the only conceivable Panicked value is the model artefact PFuel)   [proved as stream_never_panics in Proofs/NoPanicStream.v] *)
+Theorem C16_no_call_sequence_panics :
+  forall (o : Lzma.options) (k : Io.snk) (cs : list StreamLatch.call),
+  List.Forall call_bytes cs ->
+  List.Forall cres_fuel_only (fst (StreamLatch.run_calls (Stream.stream_new o k) cs)) /\
+  fuel_only (fst (Stream.stream_finish (snd (StreamLatch.run_calls (Stream.stream_new o k) cs)))).
+Proof. exact (@stream_never_panics). Qed.
+Check C16_no_call_sequence_panics :
+  forall (o : Lzma.options) (k : Io.snk) (cs : list StreamLatch.call),
+  List.Forall call_bytes cs ->
+  List.Forall cres_fuel_only (fst (StreamLatch.run_calls (Stream.stream_new o k) cs)) /\
+  fuel_only (fst (Stream.stream_finish (snd (StreamLatch.run_calls (Stream.stream_new o k) cs)))).
+Print Assumptions C16_no_call_sequence_panics.
